@@ -24,6 +24,9 @@ const fiCloneRange = 0x4020940d
 // two files. It'll create two tempfiles in the same dirs and attempt to perfom
 // a 0-byte long block clone. If that's successful it'll return true.
 func CanClone(dstFile, srcFile string) bool {
+	if handled, ok := verifCanClone(dstFile, srcFile); handled {
+		return ok
+	}
 	dst, err := ioutil.TempFile(filepath.Dir(dstFile), ".tmp")
 	if err != nil {
 		return false
@@ -43,6 +46,9 @@ func CanClone(dstFile, srcFile string) bool {
 // CloneRange uses the FICLONERANGE ioctl to de-dupe blocks between two files
 // when using XFS or btrfs. Only works at block-boundaries.
 func CloneRange(dst, src *os.File, srcOffset, srcLength, dstOffset uint64) error {
+	if handled, err := verifCloneRange(dst, src, srcOffset, srcLength, dstOffset); handled {
+		return err
+	}
 	// Build a structure to hold the argument for this IOCTL
 	// struct file_clone_range {
 	//     __s64 src_fd;
